@@ -23,7 +23,31 @@ from vcdd.oracle.ircmp import canon
 
 KINDS = ("function_parse_partial", "emit_class", "emit_function", "emit_argparse", "emit_sqlalchemy", "emit_docstring",
          "json_schema", "infer_imports", "merge_assignment_lists", "gen_file", "gen_file_imports", "doctrans",
-         "openapi", "class_parse", "sync_properties", "optimise_imports")
+         "openapi", "class_parse", "sync_properties", "optimise_imports", "emit_sqlalchemy_custom")
+
+# a small shared pool of type names the converters have no table entry for: a later case meets names an earlier
+# (or an interleaved, unrelated) conversion has already seen - what a module-level table that learns would change
+CUSTOM_TYPES = ("Person", "Thing", "np.ndarray", "tf.data.Dataset", "collections.OrderedDict")
+
+
+def custom_ir(r, name=None, plain_only=False):
+    """interface whose columns mix scalars with custom type names: plain, Optional, Union (either side), List"""
+    from collections import OrderedDict
+
+    shapes = ("%s",) if plain_only else ("%s", "Optional[%s]", "Union[int, %s]", "Union[%s, str]", "Union[float, %s]",
+                                         "List[%s]", "int", "str")
+    pool = CUSTOM_TYPES if plain_only else r.sample(CUSTOM_TYPES, r.randint(1, 2))  # names recur within one interface
+    names = r.sample(irgen.NAMES, len(pool) if plain_only else r.randint(2, 6))
+    params = OrderedDict()
+    for i, nm in enumerate(names):
+        sh = r.choice(shapes)
+        p = {"typ": sh % (pool[i] if plain_only else r.choice(pool)) if "%s" in sh else sh,
+             "doc": irgen.rand_doc(r, stop=False)}
+        if sh.startswith("Union[int") and r.random() < 0.5:
+            p["default"] = r.choice((0, 5))
+        params[nm] = p
+    return {"name": name or r.choice(("Visit", "Pet", "Owner")), "doc": irgen.rand_doc(r), "params": params,
+            "returns": None}
 
 
 def digest(x):
@@ -72,6 +96,8 @@ def run_case(kind, r, tmp):
         import cdd.function.parse
 
         return canon(cdd.function.parse.function(ast.parse(src).body[0]))
+    if kind == "emit_sqlalchemy_custom":
+        return hops.emit(custom_ir(r), r.choice(("sqlalchemy", "sqlalchemy_table", "sqlalchemy_hybrid")))[1]
     if kind.startswith("emit_"):
         fmt = kind[5:]
         ir = irgen.rand_ir(r, nparams=r.randint(1, 6), suffix_defaults=True)
@@ -168,9 +194,15 @@ def run_case(kind, r, tmp):
 
 def unrelated(r, tmp):
     """an unrelated conversion interleaved before a case (call-history dimension)"""
-    k = r.choice(("sqlalchemy", "openapi", "docstring", "import"))
+    k = r.choice(("sqlalchemy", "openapi", "docstring", "import", "sqlalchemy_custom", "sqlalchemy_custom", "wide"))
     try:
-        if k == "sqlalchemy":
+        if k == "sqlalchemy_custom":
+            hops.emit(custom_ir(r, plain_only=r.random() < 0.7), r.choice(("sqlalchemy", "sqlalchemy_table")))
+        elif k == "wide":
+            # any conversion of the bundle's own domain, on other data
+            run_case(r.choice([x for x in KINDS if x not in ("gen_file", "gen_file_imports", "doctrans",
+                                                             "sync_properties")]), r, tmp)
+        elif k == "sqlalchemy":
             hops.hop(irgen.rand_ir(r, nparams=3, type_kinds=("int", "str")), "sqlalchemy")
         elif k == "openapi":
             import cdd.compound.openapi.emit
